@@ -208,17 +208,19 @@ pub fn run(ctx: &Ctx) -> i32 {
                     for dst in 0..nf {
                         if src != dst {
                             for st in 0..2 {
-                                cases.push((fi, nf, src, dst, st));
+                                for own in 0..4usize {
+                                    cases.push((fi, nf, src, dst, st, own));
+                                }
                             }
                         }
                     }
                 }
             }
         }
-        ctx.family("links", cases.len() as u64, "every (source frame, target frame) pair for 2..4 frames, 3 formats, target raw/compressed; the linked cel's image must equal the target cel's image (the link carries different x/y/opacity values of its own)", true);
+        ctx.family("links", cases.len() as u64, "every (source frame, target frame) pair for 2..4 frames, 3 formats, target raw/compressed; the linked cel's image must equal the target cel's image; the link chunk carries x/y/opacity values of its own from {(-3,2,41),(0,0,0),(32767,-32768,255),(1,-1,1)} which must not matter", true);
         let fmts = [Fmt::Rgba, Fmt::Gray, Fmt::Indexed(2)];
-        cases.par_iter().for_each(|(fi, nf, src, dst, st)| {
-            let case = || format!("fmt{} frames={} {}->{} st={}", fi, nf, src, dst, st);
+        cases.par_iter().for_each(|(fi, nf, src, dst, st, own)| {
+            let case = || format!("fmt{} frames={} {}->{} st={} own={}", fi, nf, src, dst, st, own);
             if !ctx.wants("links", &case) {
                 return;
             }
@@ -233,7 +235,9 @@ pub fn run(ctx: &Ctx) -> i32 {
             f.frames[0].push(Body::Layer(l));
             let px = pixels(fmt, 3, 2, 9, (0, 7));
             f.frames[*dst as usize].push(if *st == 0 { raw_cel(0, 1, -1, 199, 3, 2, px) } else { zcel(0, 1, -1, 199, 3, 2, px, 9) });
-            f.frames[*src as usize].push(link_cel(0, -3, 2, 41, *dst));
+            // the link chunk's own offset / opacity fields must not influence the rendering
+            let (ox, oy, oo) = [(-3i16, 2i16, 41u8), (0, 0, 0), (32767, -32768, 255), (1, -1, 1)][*own];
+            f.frames[*src as usize].push(link_cel(0, ox, oy, oo, *dst));
             conform(ctx, "links", &case, &f, &want);
         });
     }
